@@ -688,6 +688,15 @@ pub fn run_case(rt: &tokio::runtime::Runtime, line: &str) -> String {
                 }
             }
             ph = wait_states(&proxies, want).await;
+            // a fake node answers in order: a plug that still holds the connection of a node that is no longer the source of any
+            // running migration (its barrier is gone) would keep every later command of that node waiting forever
+            let still: Vec<u64> = ph.keys().map(|(_, src, _)| *src).collect();
+            let mut un = net.unplugged.lock();
+            for n in 0..512u64 {
+                if !still.contains(&n) {
+                    un.push(n);
+                }
+            }
         }
         // 5. probes
         let mut obs: BTreeMap<u64, Vec<Obs>> = BTreeMap::new();
